@@ -59,6 +59,8 @@ InErr == /\ R.e = "inerr" /\ expect = {} /\ R.info = lst[R.s]
          /\ expect' = {Cbk(R.s, "inerr", R.v, R.info, "")} /\ UNCHANGED <<box, cbox, blk, infl, lst>>
 Addr == /\ R.e = "addr" /\ expect = {}
         /\ expect' = {Cbk(1, "addr", R.v, 0, ""), Cbk(2, "addr", R.v, 0, "")} /\ UNCHANGED <<box, cbox, blk, infl, lst>>
+PChg == /\ R.e = "pchg" /\ expect = {}                                                                 \* S2: protocol changes reach both
+        /\ expect' = {Cbk(1, R.k, R.v, R.added, ""), Cbk(2, R.k, R.v, R.added, "")} /\ UNCHANGED <<box, cbox, blk, infl, lst>>
 Cb == /\ R.e = "cb" /\ Cbk(R.s, R.k, R.v, R.info, R.ek) \in expect
       /\ expect' = expect \ {Cbk(R.s, R.k, R.v, R.info, R.ek)} /\ UNCHANGED <<box, cbox, blk, infl, lst>>
 Ka == /\ R.e = "ka" /\ expect = {} /\ R.res = (R.k1 \/ R.k2)                                              \* S3
@@ -83,7 +85,7 @@ ClosePending == /\ R.e = "pollclose" /\ R.res = "pending" /\ expect = {}
 Skip == /\ R.e = "skip" /\ expect = {} /\ UNCHANGED <<box, cbox, blk, infl, lst, expect>>
 
 Next == l <= NRec /\ l' = l + 1 /\
-        (Reset \/ Q \/ PollNotify \/ PollOsr \/ PollReport \/ PollPending \/ Beh \/ OutOk \/ OutErr \/ InOk \/ InErr \/ Addr \/ Cb
+        (Reset \/ Q \/ PollNotify \/ PollOsr \/ PollReport \/ PollPending \/ Beh \/ OutOk \/ OutErr \/ InOk \/ InErr \/ Addr \/ PChg \/ Cb
          \/ Ka \/ Listen \/ QClose \/ CBlock \/ CloseSome \/ CloseNone \/ ClosePending \/ Skip)
 Spec == Init /\ [][Next]_vars
 TypeOK == l >= 1
